@@ -190,8 +190,9 @@ def conformance_job(job, ev, ctx):
     n = job.get('n', {}).get(ctx['tier'])
     d = drive(job['test'], outdir, ctx['tier'], ctx['seed'], n=n, env=job.get('env'), timeout=job.get('timeout', 1500))
     viol = []
-    statusf = '%s/%s.status.json' % (outdir, name)
-    tracef = '%s/%s.ndjson' % (outdir, name)
+    fname = job.get('file', name)      # the driver's own output name when the job name differs from it
+    statusf = '%s/%s.status.json' % (outdir, fname)
+    tracef = '%s/%s.ndjson' % (outdir, fname)
     crashed = d['rc'] != 0
     if not os.path.exists(tracef):
         raise Infra('driver %s produced no trace file\n%s' % (job['test'], d['out'][-3000:]))
